@@ -52,7 +52,8 @@ FRank(f) == CASE f = "inst" -> 1 [] f = "chain" -> 2 [] f = "signers" -> 3 [] f 
 RECURSIVE SubSeqs(_)
 \* all ascending index sequences over 0..m-1
 SubSeqs(m) == IF m = 0 THEN {<<>>} ELSE LET r == SubSeqs(m - 1) IN r \cup {Append(s, m - 1) : s \in r}
-NamedSigners(T) == {<<>>, <<0>>, Idx(Len(T)), <<0, Len(T) - 1>>, <<0, 1, Len(T)>>, <<1, 2>>, <<0, 1, Len(T) - 1>>}
+Ascending(s) == \A n \in 1..(Len(s) - 1) : s[n] < s[n + 1]
+NamedSigners(T) == {s \in {<<>>, <<0>>, Idx(Len(T)), <<0, Len(T) - 1>>, <<0, 1, Len(T)>>, <<1, 2>>, <<0, 1, Len(T) - 1>>} : Ascending(s)}
 SignerSets(T) == (IF SignerMenu = "all" THEN SubSeqs(Len(T) + 1) ELSE NamedSigners(T)) \ {MinPrefix(T)}
 Reverse(s) == [n \in 1..Len(s) |-> s[Len(s) + 1 - n]]
 DeltaKinds(c) == {"plusOne", "zeroEntry", "dupFirst", "sameKey", "extraNew", "badNew"}
